@@ -154,3 +154,77 @@ Print Assumptions unissued_secret_not_found.
 Print Assumptions app_invoked_only_when_found.
 Print Assumptions ticket_stable.
 Print Assumptions dead_stays_dead.
+
+(* The same service over the capacity-bounded MemoryStore (Model/TPStoreLRU.v), restated from
+   Proofs/TPStoreLRUProofs.v.  [cap] is the number of KEYS the cache holds; every statement
+   below holds for every [cap]. *)
+From Mac Require Import Model.TPStoreLRU Proofs.TPStoreLRUProofs.
+
+Theorem lru_refines_unbounded :
+    forall (cap : nat) (l : list action),
+    2 * n_creating l <= cap -> run_lru cap lempty l = run [] l.
+Proof. exact (@run_lru_big_cap_l). Qed.
+
+Theorem lru_run_is_unbounded_run_with_guesses :
+    forall (cap : nat) (ls : lstore) (l : list action),
+    wf ls -> run_lru cap ls l = run (ls_flows ls) (erase cap ls l).
+Proof. exact (@run_lru_erase). Qed.
+
+Theorem lru_discharge_only_after_approval_t :
+    forall (cap : nat) (l : list action) (n : nat) (s : sref) (status tk : N) (cavs : list N) (app : bool),
+    nth_error l n = Some (APoll s) ->
+    nth_error (run_lru cap lempty l) n = Some (OBody status (BDischarge tk cavs) app) ->
+    exists (f : N) (c m : nat) (a : action) (o : obs),
+    s = SPoll f /\
+    c < m /\
+    m < n /\
+    created_at l (run_lru cap lempty l) c f tk /\
+    nth_error l m = Some a /\
+    nth_error (run_lru cap lempty l) m = Some o /\
+    decides_with tk a f (BDischarge tk cavs) /\
+    accepted o /\
+    (forall (j : nat) (a' : action) (o' : obs), m < j -> j < n -> nth_error l j = Some a' ->
+       nth_error (run_lru cap lempty l) j = Some o' -> is_decision_on a' f -> ~ accepted o') /\
+    status = 200%N /\ app = false.
+Proof. exact (@lru_discharge_only_after_approval). Qed.
+
+Theorem lru_delivered_at_most_once_t :
+    forall (cap : nat) (l : list action) (i j : nat) (f s1 : N) (b1 : body) (app1 : bool)
+           (s2 : N) (b2 : body) (app2 : bool),
+    nth_error l i = Some (APoll (SPoll f)) ->
+    nth_error l j = Some (APoll (SPoll f)) ->
+    nth_error (run_lru cap lempty l) i = Some (OBody s1 b1 app1) ->
+    nth_error (run_lru cap lempty l) j = Some (OBody s2 b2 app2) -> i = j.
+Proof. exact (@lru_delivered_at_most_once). Qed.
+
+Theorem lru_collected_then_not_found_t :
+    forall (cap : nat) (l : list action) (i : nat) (s : sref) (status : N) (b : body) (app : bool),
+    nth_error l i = Some (APoll s) ->
+    nth_error (run_lru cap lempty l) i = Some (OBody status b app) ->
+    exists f : N,
+    s = SPoll f /\
+    (forall (j : nat) (a : action), i < j -> nth_error l j = Some a -> presents a f ->
+       nth_error (run_lru cap lempty l) j = Some (refused a)).
+Proof. exact (@lru_collected_then_not_found). Qed.
+
+Theorem lru_guess_not_found_t :
+    forall (cap : nat) (ls : lstore) (a : action),
+    names_no_key a -> step_lru cap ls a = (ls, refused a).
+Proof. exact (@lru_guess_not_found_step). Qed.
+
+Theorem lru_poll_before_decision_t :
+    forall (cap : nat) (l : list action) (n : nat) (f : N),
+    nth_error l n = Some (APoll (SPoll f)) ->
+    (forall (m : nat) (a : action) (o : obs), m < n -> nth_error l m = Some a ->
+       nth_error (run_lru cap lempty l) m = Some o -> is_decision_on a f -> ~ accepted o) ->
+    nth_error (run_lru cap lempty l) n = Some ONotReady \/
+    nth_error (run_lru cap lempty l) n = Some (ONotFound false).
+Proof. exact (@lru_poll_before_decision). Qed.
+
+Print Assumptions lru_refines_unbounded.
+Print Assumptions lru_run_is_unbounded_run_with_guesses.
+Print Assumptions lru_discharge_only_after_approval_t.
+Print Assumptions lru_delivered_at_most_once_t.
+Print Assumptions lru_collected_then_not_found_t.
+Print Assumptions lru_guess_not_found_t.
+Print Assumptions lru_poll_before_decision_t.
